@@ -76,6 +76,12 @@ def step (s0 : DS) (line : String) : DS × String :=
   | ["sw", "del", k] => ({ s with spec := Index.del s.spec (nat k) }, "ok")
   | ["sw", "load", _] => (s, "ok " ++ showIndex s.spec)
   | "sw" :: _ => (s, "ok")
+  -- what a reader sees right now, the writer staying open
+  | ["act", "probe", _] =>
+    let st := recover s.cfg s.mdisk
+    -- Spec: a flush boundary that holds everything acknowledged so far
+    let ok := (List.range (s.wr.length + 1 - s.dur)).any fun d => sameIndex (Index.replay [] (s.wr.take (s.dur + d))) st
+    (s, "ok " ++ showIndex st ++ (if ok then "" else "\t#F:" ++ s.firstFault.getD "C25-unexplained-loss"))
   | ["act", "w", items] =>
     let its := parseItems items
     let out := cWriteF s.cfg s.fc s.mk' ⟨s.cs, s.mdisk, s.rs⟩ its
@@ -84,11 +90,11 @@ def step (s0 : DS) (line : String) : DS × String :=
   | ["act", "sync", _] =>
     let out := cSyncF s.cfg s.fc s.mk' ⟨s.cs, s.mdisk, s.rs⟩
     let s1 := pushR s out.ops
-    ({ s1 with cs := out.st.cs, rs := [] }, if out.failed then "ok err" else "ok ok")
+    ({ s1 with cs := out.st.cs, rs := [], dur := if out.failed then s.dur else s.wr.length }, if out.failed then "ok err" else "ok ok")
   | ["act", "close", _] =>
     let out := cCloseF s.cfg s.fc s.mk' ⟨s.cs, s.mdisk, s.rs⟩
     let s1 := pushR s out.ops
-    ({ s1 with cs := out.st.cs, rs := [] }, if out.failed then "ok err" else "ok ok")
+    ({ s1 with cs := out.st.cs, rs := [], dur := if out.failed then s.dur else s.wr.length }, if out.failed then "ok err" else "ok ok")
   | ["act", "compact", ep, order] =>
     let e := epOf ep
     let out := cCompactF s.cfg s.fc s.mk' ⟨s.cs, s.mdisk, s.rs⟩ e (parseOrder order) (order == "skip")
